@@ -124,6 +124,7 @@ def forms_for(cls_name, full=True):
         num = ("--num", "num", [("0", 0), ("2", 2)])
         nc = ("--num-concurrent", "num_concurrent", [("2", 2), ("0", 0)])
         fn = [(t, v) for t, v in FUNCS]
+        add("apply", [[(VW + "boom", vw.boom)]], [args])
         if full:
             add("apply", [fn], [args, kwargs, num, GROUP, ECB, CCB])
             add("map", [fn, [("[1,2,3]", [1, 2, 3]), ("[]", []), ("(4,)", (4,))]], [nc, GROUP, ECB, CCB])
@@ -146,6 +147,7 @@ def history_alphabet(cls_name):
             f"apply {VW}work --num 2 --group-name g1",
             f"map {VW}work [1,2,3] --num-concurrent 2 --group-name g2",
             "cancel 0", "cancel-group g1", "lock", "pool-size 1", "flush", "gather-and-close",
+            f"apply {VW}boom --args (1,)",
         ]
     return [allf[ln] for ln in lines]
 
